@@ -453,6 +453,30 @@ def register(cat):
     bad("K.update_too_short", "K", lambda c, r: gen_update(c, r, False), lambda eng, ops, st: ops[0].update(st["mode"], ops[1]), lambda ops, st: ops[1].shape[0] < shp(ops[0])[st["mode"]] * ops[0].ncomponents)
     bad("K.update_length", "K", lambda c, r: gen_update(c, r, True), lambda eng, ops, st: ops[0].update(st["mode"], ops[1]), lambda ops, st: ops[1].shape[0] > shp(ops[0])[st["mode"]] * ops[0].ncomponents, known="ktensor_update_surplus")
 
+    def gen_update_multi(c, r):
+        k = c.obj(r)
+        if k.ndims < 2:
+            return None
+        need = sum(k.shape[m] * k.ncomponents for m in range(k.ndims))
+        return {"operands": [r, c.fresh(rand_array(c.g, (need - 1,)))]}
+
+    bad(
+        "K.update_all_modes_too_short",
+        "K",
+        gen_update_multi,
+        lambda eng, ops, st: ops[0].update(np.arange(ops[0].ndims), ops[1]),
+        lambda ops, st: ops[1].shape[0] < sum(s * ops[0].ncomponents for s in shp(ops[0])),
+    )
+    bad("K.arrange_weight_factor_out_of_range", "K", lambda c, r: {"operands": [r], "wf": c.obj(r).ndims + c.g.randint(0, 1)}, lambda eng, ops, st: ops[0].arrange(weight_factor=st["wf"]), lambda ops, st: st["wf"] >= ops[0].ndims)
+    bad("K.normalize_weight_factor_out_of_range", "K", lambda c, r: {"operands": [r], "wf": c.obj(r).ndims + c.g.randint(0, 1)}, lambda eng, ops, st: ops[0].normalize(weight_factor=st["wf"]), lambda ops, st: st["wf"] >= ops[0].ndims)
+
+    def gen_fixsigns_other(c, r):
+        k = c.obj(r)
+        o = c.pick("K", lambda x: shp(x) != shp(k) or x.ncomponents != k.ncomponents, exclude=(r,))
+        return None if o is None else {"operands": [r, o]}
+
+    bad("K.fixsigns_other_mismatch", "K", gen_fixsigns_other, lambda eng, ops, st: ops[0].fixsigns(ops[1]), lambda ops, st: shp(ops[0]) != shp(ops[1]))
+
     def gen_from_vector(c, r):
         k = c.obj(r)
         return {"operands": [r, c.fresh(rand_array(c.g, (2 * (sum(k.shape) + 1) + 1,)))]}
